@@ -558,11 +558,11 @@ func appendString(dst, src []byte, encode bool) []byte {
 	// TODO: Encode only if length is lower with the string encoded
 
 	n := uint64(len(b))
-	nn := len(dst) - 1 // peek last byte
-	if nn >= 0 && dst[nn] != 0 {
-		dst = append(dst, 0)
-		nn++
-	}
+	// The length prefix always gets an octet of its own. Taking over a trailing
+	// zero octet of dst merges the length into whatever that octet was: the
+	// last octet of a name that ends in 0x00, or the length of an empty name.
+	dst = append(dst, 0)
+	nn := len(dst) - 1
 
 	dst = appendInt(dst, 7, n)
 	dst = append(dst, b...)
@@ -621,7 +621,7 @@ func (hp *HPACK) AppendHeader(dst []byte, hf *HeaderField, store bool) []byte {
 				}
 			}
 		} else if !store || hp.DisableDynamicTable { // with or without indexing
-			dst = append(dst, 0, 0)
+			dst = append(dst, 0)
 		} else {
 			dst = append(dst, literalByte)
 			hp.addDynamic(hf)
